@@ -1,22 +1,28 @@
 ----------------------------- MODULE PolyEstTrace -----------------------------
-(* code -> spec for the public estimator: ExtendedFeatures(kind, degree, ...).fit(X)     *)
-(* .transform(X) / get_feature_names_out() / n_output_features_, observed on a row of    *)
-(* distinct primes (columns factorised back into bags of input indices) and compared     *)
-(* with the REQUIREMENT Comb of PolyFeatures (scikit-learn's enumeration).               *)
+(* code -> spec for the public estimator, as a HISTORY on one instance:                  *)
+(*   ( set_params(kind, degree, interaction_only, include_bias) ; fit(X) ;               *)
+(*     transform(X) ; get_feature_names_out() ; n_output_features_ )*                    *)
+(* Each block is one event; the state of the specification is the configuration of the   *)
+(* last fit.  Whatever was fitted before, the block's observations must be those of a    *)
+(* fresh estimator with that configuration: columns (factorised on a row of distinct     *)
+(* primes) = names = scikit-learn's enumeration Comb, width = Len(Comb).                 *)
 EXTENDS PolyFeatures, TraceKit
 VARIABLES tid, l
 T == Batch[tid]
 TInit == /\ tid \in 1 .. Len(Batch) /\ l = 1
-         /\ n = Batch[tid].n /\ degree = Batch[tid].degree /\ io = Batch[tid].io /\ bias = Batch[tid].bias
+         /\ n = 1 /\ degree = 1 /\ io = FALSE /\ bias = FALSE
          /\ pc = "done" /\ d = 0 /\ i = 0 /\ pos = 0 /\ index = <<>> /\ nindex = <<>>
          /\ cols = <<>> /\ calls = <<>> /\ names = <<>>
-Observe == /\ l = 1
-           /\ Require(T.cols = Comb, T.id, "SameColumns", l, [got |-> T.cols, want |-> Comb])
-           /\ Require(T.names = Comb, T.id, "NamesMatch", l, [got |-> T.names, want |-> Comb])
-           /\ Require(T.nout = Len(Comb), T.id, "NOutput", l, [got |-> T.nout, want |-> Len(Comb)])
-           /\ Require(T.skcols = Comb, T.id, "SpecCombIsSklearnPowers", l, [got |-> T.skcols])
-           /\ Require(T.eqsk, T.id, "ValuesEqualSklearn", l, <<>>)
-           /\ Accepted(T.id)
-           /\ l' = 2 /\ UNCHANGED <<vars, tid>>
-TSpec == TInit /\ [][Observe]_<<vars, tid, l>>
+Block == /\ l <= Len(T.ev)
+         /\ LET e == T.ev[l] IN
+            /\ n' = e.n /\ degree' = e.degree /\ io' = e.io /\ bias' = e.bias
+            /\ UNCHANGED <<pc, d, i, pos, index, nindex, cols, calls, names, tid>>
+            /\ Require(e.cols = Comb', T.id, "SameColumns", l, [got |-> e.cols, want |-> Comb'])
+            /\ Require(e.names = Comb', T.id, "NamesMatch", l, [got |-> e.names, want |-> Comb'])
+            /\ Require(e.nout = Len(Comb'), T.id, "NOutput", l, [got |-> e.nout, want |-> Len(Comb')])
+            /\ Require(e.skcols = Comb', T.id, "SpecCombIsSklearnPowers", l, [got |-> e.skcols])
+            /\ Require(e.eqsk, T.id, "ValuesEqualSklearn", l, <<>>)
+            /\ (IF l = Len(T.ev) THEN Accepted(T.id) ELSE TRUE)
+            /\ l' = l + 1
+TSpec == TInit /\ [][Block]_<<vars, tid, l>>
 =============================================================================
